@@ -243,7 +243,7 @@ class Layout:
             # with the length limit off, statements may extend beyond column 72
             width = 66 if length_limit else rng.choice([66, 90, 120, 120])
             # split text into chunks at blanks outside literals so that each fits columns 7-72
-            pieces = self._split_fixed(text, width, force=(not self.plain and rng.random() < self.cont_p))
+            pieces = self._split_fixed(text, width, force=(not self.plain and rng.random() < self.cont_p), lit_break=(length_limit and not self.plain and width == 66 and not label_of(s)))
             label = s.label or ""
             if label:
                 self.features.add("label")
@@ -284,16 +284,27 @@ class Layout:
             out += post_lines
         return "\n".join(out) + "\n"
 
-    def _split_fixed(self, text: str, width: int, force=False) -> List[str]:
+    def _split_fixed(self, text: str, width: int, force=False, lit_break=False) -> List[str]:
         rng = self.rng
         if len(text) <= width and not force:
             return [text]
         pts = lexer.break_points(text)
         pieces = []
         start = 0
+        marks = lexer.scan(text)[0] if lit_break else None
         # greedy with random earlier breaks
         while len(text) - start > width or (force and not pieces and pts):
             cands = [p for p in pts if start < p <= start + width]
+            q = start + width
+            # (not after a blank: a preprocessor may strip trailing blanks before FORD sees the line)
+            if marks is not None and q < len(text) and lexer.in_literal(text[:q]) and text[q - 1] != " " and (not cands or rng.random() < 0.6):
+                # a character literal that runs through column 72 goes on in column 7 of the continuation line (the line is full: nothing but
+                # the ignored sequence field can follow the break)
+                pieces.append(text[start:q])
+                start = q
+                force = False
+                self.features.add("fixed_literal_continued_at_column_72")
+                continue
             if not cands:
                 break  # cannot split legally: leave long (only happens with very long literals)
             if force or rng.random() < 0.5:
@@ -305,6 +316,10 @@ class Layout:
             force = False
         pieces.append(text[start:])
         return pieces
+
+
+def label_of(s):
+    return getattr(s, "label", None)
 
 
 def assign_labels(stmts, rng, p=0.15):
